@@ -7,7 +7,10 @@ LEVEL = 'exploration'
 HONEST = ('honest', 'honest-chunked')
 DEVIATIONS = ('wrong-id', 'id-plus-2^32', 'other-pub-time', 'other-aggr-time', 'wrong-shape-drop-link', 'wrong-shape-add-link', 'wrong-shape-flip-direction',
               'other-input-hash', 'altered-right-link', 'status-nonzero', 'status-nonzero-with-chain', 'error-pdu', 'bad-mac', 'other-key-valid-mac', 'other-pdu-version',
-              'no-chain', 'truncated', 'garbled', 'transport-error', 'http-500', 'consistent-chain-for-other-second')
+              'no-chain', 'truncated', 'garbled', 'transport-error', 'http-500', 'consistent-chain-for-other-second',
+              # the same deviations in a reply that carries no status element at all
+              'no-status+wrong-id', 'no-status+other-pub-time', 'no-status+other-aggr-time', 'no-status+wrong-shape-add-link', 'no-status+other-input-hash')
+NOT_JUDGED = ('no-status+honest',)     # a complete, correct reply without a status element: the property does not say (the library reads it as status 0)
 
 
 class Extender:
@@ -32,6 +35,9 @@ class Extender:
         req['mac_valid'] = ok
         self.seen.append(req)
         b = self.behaviour
+        nostatus = b.startswith('no-status+')
+        if nostatus:
+            b = b[len('no-status+'):]
         t = req.get('aggr_time')
         p = req.get('pub_time')
         self.reply_chain = None
@@ -103,6 +109,9 @@ class Extender:
         if b == 'error-pdu':
             body = S.error_pdu('ext', ver, self.key, status=rng.choice([0x101, 0x200]), alg=self.alg, login=self.login)
         else:
+            if nostatus:
+                status = None
+                self.behaviour = 'no-status+' + b
             body = S.ext_response(req, ch, self.key, version=ver, alg=self.alg, status=status, req_id=rid, login=self.login,
                                   errmsg='failure' if status else None, last_time=pp if rng.random() < 0.6 else None, **kw)
         self.reply_chain = chain
@@ -285,6 +294,9 @@ def run_worker(job, r):
                 r.viol('ext-request:%s:v%d:wrong-%s' % (transport, version, '+'.join(bad)), 'request at the transport: %s (aggr %s pub %s) expected (aggr %s pub %s)' % (bad, rq.get('aggr_time'), rq.get('pub_time'), t, target), replay)
         elif srv.bad_request:
             r.viol('ext-request:%s:v%d:malformed' % (transport, version), srv.bad_request, replay)
+        if b in NOT_JUDGED:
+            r.count('not_judged_%s' % b)
+            continue
         must_fail = b not in HONEST or how in ('to-earlier', 'pubrec-wrong-hash')
         if how == 'to-equal' and t == 0:
             must_fail = True
